@@ -41,7 +41,7 @@ func VxH_C16_layers() {
 	tags := []string{"section", "article", "aside"}
 	type kind struct {
 		positioned, hasZ, floated, translucent bool
-		z                                       int
+		z                                      int
 	}
 	var kinds []kind
 	var rules []tree.VxRule
